@@ -15,12 +15,15 @@ import (
 	"os"
 	"os/exec"
 	"path/filepath"
+	"strings"
 	"time"
 
 	"github.com/AliceO2Group/Control/core/workflow/callable"
 
 	"verif/harness/internal/gen"
 )
+
+var foreignCrashes int // crashes of the core outside the hook machinery (see runLevel), cases re-run
 
 var (
 	flagProp  = flag.String("prop", "C08", "property: C08 | C09 | C10")
@@ -119,6 +122,7 @@ func runLevel(level string, inputs []Input, tag string) []Obs {
 	defer os.Remove(resF)
 	from := 0
 	done := make([]bool, len(inputs))
+	foreignRetries := map[int]int{}
 	for attempts := 0; from < len(inputs) && attempts < len(inputs)+2; attempts++ {
 		os.Remove(resF)
 		cmd := exec.Command(os.Args[0], "-child", level, "-in", inF, "-res", resF, "-from", fmt.Sprint(from), "-out", dir)
@@ -163,6 +167,15 @@ func runLevel(level string, inputs []Input, tag string) []Obs {
 					eb = eb[:1500]
 				}
 				tail = string(eb)
+			}
+			// a crash of the task manager's state-update goroutine racing with the release of the task
+			// (core/task/manager.go updateTaskState, seen about once in a thousand teardowns of the
+			// in-process core) is not hook machinery: the case is run again, the crash is counted
+			if level == "sim" && strings.Contains(tail, "task.(*Manager).updateTaskState") && foreignRetries[lastBegun] < 3 {
+				foreignRetries[lastBegun]++
+				foreignCrashes++
+				from = lastBegun
+				continue
 			}
 			out[lastBegun] = Obs{Crashed: true, Note: tail}
 			done[lastBegun] = true
@@ -225,7 +238,7 @@ func main() {
 	}
 	num := prop[1:]
 	err := gen.WriteCases(o, prop, "From Verif Require Import EnvHooks.", "c08_case", "report"+num, cases,
-		map[string]any{"levels": levelCount(inputs)})
+		map[string]any{"levels": levelCount(inputs), "task_manager_crashes_rerun": foreignCrashes})
 	if err != nil {
 		panic(err)
 	}
